@@ -11,7 +11,7 @@ if wave:
     import glob
     prev = [json.load(open(f)).get('needs', '') for f in sorted(glob.glob('/verif/seeded/%s-*/meta.json' % pid))]
     avoid = 'AVOID (already tried by others, do something with a DIFFERENT mechanism and site): ' + ' || '.join(p for p in prev if p) + '\n'
-    if wave >= 'w5':
+    if int(wave[1:]) >= 5:
         avoid += ('Look especially at anchor files, classes, options and code paths that the AVOID list does not mention yet '
                   '(rarely used constructor options, alternative entry points, less common message types or framings, error paths).\n')
 print(f"""You are helping to test a verification effort for the Python library pymodbus (Modbus protocol stack, version 2.4.0 snapshot).
